@@ -142,6 +142,16 @@ PrefixMeets(d, e, r) ==
     CASE d = "reject" -> ~r.ok
       [] d = "accept" -> r.ok /\ e.ok /\ r.fam = e.fam /\ r.bits = e.bits /\ SameNetBits(r.b, e.b, e.bits)
       [] OTHER -> TRUE
+(* The unmapped family.  Whatever class a call falls into, a SUCCESSFUL result  *)
+(* of the NoMapped functions and of NetAddrToAddrPort is never an IPv4-mapped   *)
+(* IPv6 address, and for an input that has an IPv4 form (To4() # nil) it is an  *)
+(* IPv4 result ("the result has the unmapped family"); rejecting stays          *)
+(* acceptable in the "free" class.  E.g. what net.ParseCIDR("::ffff:1.2.3.0/    *)
+(* 120") yields - mapped IP, 16-byte mask - may be rejected by                  *)
+(* IPNetToPrefixNoMapped but must not come back as ::ffff:1.2.3.0/120.          *)
+UnmappedOK(ip, r) == r.ok => (~Is4in6(r.b) /\ (Has4(ip) => r.fam = "v4" /\ Len(r.b) = 4))
+PrefixMeetsNoMapped(d, e, ip, r) == PrefixMeets(d, e, r) /\ UnmappedOK(ip, r)
+
 (* Membership is compared exactly for the "accept" class, on probes of the    *)
 (* prefix's family; an IPv4-mapped probe is left out against a genuine IPv6   *)
 (* network (net.IPNet treats the probe as IPv4 and never finds it inside).    *)
@@ -177,7 +187,7 @@ AddrPortMeets(kind, ip, e, r) ==
     LET d == AddrPortDemand(kind, ip) IN
     CASE d = "reject" -> ~r.ok
       [] d = "accept" -> r = e
-      [] OTHER -> r.ok => (kind = "ip" => (Has16(ip) /\ Canon(r.b) = Canon(ip.b) /\ Len(r.b) = FamLen(r.fam)
+      [] OTHER -> r.ok => ~Is4in6(r.b) /\ (kind = "ip" => (Has16(ip) /\ Canon(r.b) = Canon(ip.b) /\ Len(r.b) = FamLen(r.fam)
                                            /\ r.fam = (IF Has4(ip) THEN "v4" ELSE "v6")))
 AddrPortOK(kind, ip, zone, port, r) ==
     IF HasAddrPort(kind) /\ Has16(ip)
